@@ -400,6 +400,13 @@ export class TypeGen {
         }],
         [1, () => A.obj([A.prop("t", this.scalarLeaf())])],
       ])();
+    // a named type against its own body written inline (and the other way round): must take the true branch
+    const named = this.decls.filter((d) => d.d === "alias" && !(d.params || []).length && ["tuple", "arr", "obj"].includes(d.t.k));
+    if (named.length && r.chance(0.25)) {
+      const d = r.pick(named);
+      const [check, ext] = r.chance(0.5) ? [A.ref(d.name), d.t] : [d.t, A.ref(d.name)];
+      return { k: "cond", check, ext, a: this.type(depth - 1), b: this.type(depth - 1) };
+    }
     return { k: "cond", check: scalar(), ext: scalar(), a: this.type(depth - 1), b: this.type(depth - 1) };
   }
   excludeType() {
@@ -420,6 +427,12 @@ export class TypeGen {
       [this.decls.some((d) => d.d === "alias" && !(d.params || []).length && d.name.startsWith("R")) ? 3 : 0, () => {
         const d = r.pick(this.decls.filter((d) => d.d === "alias" && !(d.params || []).length && d.name.startsWith("R")));
         return A.util("Exclude", [A.union([A.ref(d.name), A.kw("null")]), A.kw("null")]);
+      }],
+      // the same for any named type (tuples, arrays, objects, unions behind an alias or interface)
+      [this.decls.some((d) => (d.d === "alias" || d.d === "iface") && !(d.params || []).length) ? 3 : 0, () => {
+        const d = r.pick(this.decls.filter((d) => (d.d === "alias" || d.d === "iface") && !(d.params || []).length));
+        const extra = r.pick([A.kw("null"), A.kw("boolean"), A.lit("zz")]);
+        return A.util("Exclude", [A.union([A.ref(d.name), extra]), extra]);
       }],
     ])();
   }
